@@ -48,7 +48,7 @@ TOKENS = ["unsched", "remaining", "is_completed", "est", "duration", "is_ready",
 
 def gen_cases(ctx):
     rng = ctx.rng
-    for i in range(ctx.scale(1000, 30000)):
+    for i in range(ctx.scale(1000, 180000)):
         c = gen_history_case(rng, max_jobs=rng.choice([2, 3, 4]), max_machines=rng.choice([2, 3, 4]))
         k = rng.randint(2, len(TOKENS))
         order = rng.sample(TOKENS, k)
@@ -61,7 +61,7 @@ def gen_cases(ctx):
                                           {"remove_completed_job_nodes": False}]),
                  late=rng.random() < 0.3)
         yield c
-    for i in range(ctx.scale(250, 8000)):
+    for i in range(ctx.scale(250, 48000)):
         c = gen_history_case(rng, max_jobs=rng.choice([2, 3, 4]), max_machines=rng.choice([2, 3]))
         c.update(kind="env", builder=rng.choice(["disjunctive", "agent_task", "with_jobs", "complete"]),
                  episodes=rng.choice([3, 4]),
@@ -70,7 +70,7 @@ def gen_cases(ctx):
                                      rng.randint(1, 7)),
                  reward=rng.choice(["makespan", "idle"]))
         yield c
-    for i in range(ctx.scale(30, 800)):
+    for i in range(ctx.scale(30, 4800)):
         yield {"kind": "multi_env", "seed": rng.randrange(10**6), "instance": {"cls": "generated"},
                "features": rng.sample(["is_ready", "duration", "is_scheduled", "is_completed",
                                        "remaining_operations"], rng.randint(1, 4))}
